@@ -22,6 +22,7 @@ pub mod c20;
 pub mod genhist;
 pub mod objops;
 pub mod transcript;
+pub mod ubscan;
 
 pub fn dispatch(cmd: &str, o: &Opts) -> i32 {
     match cmd {
@@ -46,6 +47,7 @@ pub fn dispatch(cmd: &str, o: &Opts) -> i32 {
         "c19" => c19::run(o),
         "c20" => c20::run(o),
         "transcript" => transcript::run(o),
+        "ubscan" => ubscan::run(o),
         "selfcheck" => match common::selfcheck(o) {
             Ok(n) => {
                 println!("selfcheck ok: {} reference vectors reproduced by oracle O1", n);
